@@ -237,7 +237,7 @@ impl Check for C10 {
              x {} transports {{udp | tcp x 4 option lists (none, MSS, MSS+WS+SACKperm+TS via options(), 40 bytes via options_raw()) x flags (none, all) | tcp_header x 2 | icmpv4 x all {} typed variants | icmpv4_raw x {} | icmpv4 echo helpers | icmpv6 x all {} typed variants | icmpv6_raw x {} | icmpv6 echo helpers | raw write(ip number 253, 59)}} \
              x payload lengths {}{}; plus arp x 5 packets (hw/proto address sizes 0, 1, 6/4, 16, 255) on the 13 link stackings that offer it; all 2^9 TCP flag subsets on ethernet2/ipv4 and ip/ipv6 x 4 option lists x the payload lengths; raw write with every ip number 0..=255 on every net; \
              fragmenting IPv4 headers: the 5 ip(Ipv4) nets x 14 stackings x 7 transports {{udp, tcp x 2, icmpv4 echo, raw 253/17/6}} x (MF, offset) in {{(1,0),(0,1),(1,1),(1,185),(0,8191),(1,8191)}} x DF {{0,1}} x the payload lengths (+ total-length limit-2..=limit+2 on one stacking), \
-             oracle there: same size/bytes through all three writers, bytes identical to the (DF 1, MF 0, offset 0) sibling except flags/offset word and header checksum, the word carries exactly the supplied bits, header checksum verifies, strict parser accepts, returns the fragment fields, flags the payload as fragmented, decodes no transport and hands out the bytes behind the IP layer; Err iff the sibling is refused; the same for ip(Ipv6) with a fragment header (all 24 slot subsets that contain it, small and maximum size) whose (M, offset) is one of {{(1,0),(0,1),(1,1),(1,181),(0,8191),(1,8191)}} on 5 transports: only the offset/M word of the fragment header may differ from the (0,0) sibling; \
+             oracle there: same size/bytes through all three writers, bytes identical to the (DF 1, MF 0, offset 0) sibling except flags/offset word and header checksum, the word carries exactly the supplied bits, header checksum verifies, strict parser accepts, returns the fragment fields, flags the payload as fragmented, decodes no transport and hands out the bytes behind the IP layer, PacketHeaders::from_ip_slice/from_ethernet_slice likewise (fragment fields in the header structs, no transport, PayloadSlice::Ip flagged fragmented); Err iff the sibling is refused; the same for ip(Ipv6) with a fragment header (all 24 slot subsets that contain it, small and maximum size) whose (M, offset) is one of {{(1,0),(0,1),(1,1),(1,181),(0,8191),(1,8191)}} on 5 transports: only the offset/M word of the fragment header may differ from the (0,0) sibling; \
              and on one stacking per (net, transport) every payload length in limit{} of the governing length field (IPv4 total length, IPv6 payload length, UDP length) for {} transports. payload[i] = i*7+3. \
              oracle: size(), write, write_to_vec, write_to_slice never panic, succeed together, give identical bytes of length size(); the reference decoder (own code from RFC 791/8200/4302/768/9293/792/4443/826, 802.1Q, LINUX_SLL; strict: every length field == real size, IPv4 header / UDP / TCP / ICMP checksums verify by an own RFC 1071 sum over an own pseudo header, UDP checksum != 0, every ether type / protocol number / next header decodes as the layer it names) and SlicedPacket::from_ethernet/from_linux_sll/from_ip accept the bytes and give back every configured field, option, extension header (RFC 8200 order) and the payload; \
              Err (all three writers) iff payload exceeds the governing field or ICMPv6 sits on IPv4, and bytes written before the error contain no length field that differs from the real size. \
